@@ -39,12 +39,21 @@ def suite_passes(patch):
 
 def main(only=""):
     meta = json.load(open(os.path.join(ROOT, "mutants", "mutants.json")))
+    for m in meta:
+        m["patch"] = os.path.join(ROOT, "mutants", m["name"] + ".patch")
+    # the confirmed changes written by independent sub-agents
+    sd = os.path.join(ROOT, "seeded")
+    for name in sorted(os.listdir(sd)) if os.path.isdir(sd) else []:
+        mj = os.path.join(sd, name, "meta.json")
+        if os.path.exists(mj):
+            j = json.load(open(mj))
+            meta.append(dict(name="seeded-" + name, property=j["property"], patch=os.path.join(sd, name, "patch.diff")))
     bad = 0
     rows = []
     for m in meta:
         if only and only not in m["name"] and only != m["property"]:
             continue
-        patch = os.path.join(ROOT, "mutants", m["name"] + ".patch")
+        patch = m["patch"]
         ok, why = suite_passes(patch)
         res = framework.try_patch(patch, [m["property"]])
         rc, lines = res[m["property"]] if res else (2, ["patch failed"])
